@@ -157,7 +157,29 @@ def gen_C05(rng, tier):
     return scn
 
 
+def gen_rerun_after_clean(rng, tier):
+    """A completed run, a cleaning command that removes some of its jobs, then the same plan
+    again with attempt-dependent outcomes (a job that is DONE from the first run may see one
+    of its dependencies run again and fail)."""
+    scn = base(rng, 2, 6, p_dep=0.85)
+    n = len(scn["tasks"])
+    for t in scn["tasks"]:
+        t["tags"] = {"m": rng.choice(["a", "b"])}
+        if t["tags"]["m"] == "a":
+            t["out"] = ["ok", rng.choice(["ok", "exit1", "exc"])]
+    plan = simple_plan(rng, n, waits=rng.random() < 0.5) + [["xpwait"]]
+    scn["procs"].append({"xp": "x0", "plan": plan})
+    scn["procs"].append({"kind": "cli", "ops": [{"cmd": "jobs-clean", "filter": ["eq", "m", "a"], "experiment": None, "perform": True, "tags": False}],
+                         "start": {"after_exit": 0, "jobs_ended": True}})
+    scn["procs"].append({"xp": "x0", "plan": simple_plan(rng, n, waits=rng.random() < 0.7) + ([["xpwait"]] if rng.random() < 0.7 else []),
+                         "start": {"after_exit": 1}})
+    maybe_trace(rng, scn, 0.15)
+    return scn
+
+
 def gen_C06(rng, tier):
+    if rng.random() < 0.12:
+        return gen_rerun_after_clean(rng, tier)
     scn = base(rng, 1, 6)
     n = len(scn["tasks"])
     r = rng.random()
@@ -507,13 +529,13 @@ def gen_C14(rng, tier):
             if r < 0.25:
                 plan.append(["yield", rng.randint(1, 6)])
             else:
-                kind = rng.choice(["assign", "assign", "assign-none", "set_meta", "add_pretasks", "identifier"])
+                kind = rng.choice(["assign", "assign", "assign-none", "set_meta", "add_pretasks", "add_pretasks_from", "identifier"])
                 # any task whose upstreams were auto-submitted is a legal target as well
                 plan.append(["mutate", rng.choice(submitted + list(range(n))), rng.randint(0, 7), kind])
         if rng.random() < 0.3:
             plan.append(["wait", rng.choice(submitted)])
     for _ in range(rng.randint(0, 3)):
-        plan.append(["mutate", rng.randrange(n), rng.randint(0, 7), rng.choice(["assign", "set_meta", "add_pretasks", "assign-none"])])
+        plan.append(["mutate", rng.randrange(n), rng.randint(0, 7), rng.choice(["assign", "set_meta", "add_pretasks", "add_pretasks_from", "assign-none"])])
     plan.append(["xpwait"])
     scn["procs"].append({"xp": "x0", "plan": plan})
     maybe_trace(rng, scn, 0.15)
